@@ -88,7 +88,7 @@ class Prop:
     id = "C33"
     level = "exploration"
     engine = "AIO+TH (deterministic asyncio loop on the simulated clock, run as one controlled thread of the TH engine)"
-    quick_runs = 8000
+    quick_runs = 30000
     thorough_runs = 300000
     quick_budget = 80.0
     chunk = 100
